@@ -38,6 +38,7 @@ Neither == [role |-> "neither", present |-> {}, bad |-> TRUE]
 Shapes == [
   control |-> { [s |-> <<"control_source">>, ok |-> TRUE], [s |-> <<"control_source", "control_binary">>, ok |-> TRUE],
                 [s |-> <<"control_source", "control_binary", "control_binary">>, ok |-> TRUE],
+                [s |-> <<"control_source", "control_binary", "control_binary", "control_binary", "control_binary">>, ok |-> TRUE],
                 [s |-> <<"control_binary", "control_source">>, ok |-> TRUE], [s |-> <<"control_binary", "control_source", "control_binary">>, ok |-> TRUE],
                 [s |-> <<"control_binary">>, ok |-> FALSE], [s |-> <<"control_source", "control_source">>, ok |-> FALSE],
                 [s |-> <<"control_source", "control_binary", "control_source">>, ok |-> FALSE],
